@@ -2364,7 +2364,9 @@ evhttp_get_body_length(struct evhttp_request *req)
 	} else {
 		char *endp;
 		ev_int64_t ntoread = evutil_strtoll(content_length, &endp, 10);
-		if (*content_length == '\0' || *endp != '\0' || ntoread < 0) {
+		/* strtoll lets through whitespace, + and - prefixes, but
+		 * Content-Length = 1*DIGIT */
+		if (!EVUTIL_ISDIGIT_(*content_length) || *endp != '\0' || ntoread < 0) {
 			event_debug(("%s: illegal content length: %s",
 				__func__, content_length));
 			return (-1);
